@@ -11,15 +11,15 @@ pub enum AddressType {
 }
 
 impl AddressType {
-    pub fn new(byte: u8) -> Self {
+    pub fn new(byte: u8) -> Option<Self> {
         if Self::Ipv4 as u8 == byte {
-            Self::Ipv4
+            Some(Self::Ipv4)
         } else if Self::Domain as u8 == byte {
-            Self::Domain
+            Some(Self::Domain)
         } else if Self::Ipv6 as u8 == byte {
-            Self::Ipv6
+            Some(Self::Ipv6)
         } else {
-            panic!("unsupported address type: {}", byte);
+            None
         }
     }
 }
@@ -49,7 +49,7 @@ impl RequestOption {
     }
 
     pub fn get_mask(options: &[Self]) -> u8 {
-        options.iter().map(|x| *x as u8).reduce(|a, b| a | b).unwrap()
+        options.iter().map(|x| *x as u8).fold(0, |a, b| a | b)
     }
 }
 
